@@ -28,6 +28,8 @@ GENERIC = {"eval", "insert", "elevate", "split"}
 def gen(tier, seed):
     rnd = random.Random(seed)
     vecs = [v for v in shape_vectors(3, 2) if v["kind"] == "uniform" and npts_of(v["U"], v["p"]) <= 6]
+    if tier != "quick":
+        vecs = vecs * 4           # four independent draws of control points and weights per vector and operation
     cases = []
     for v in vecs:
         U, p = v["U"], v["p"]
